@@ -39,6 +39,20 @@ def _lm_runs(bases, shifts):
             for b in bases for s in shifts]
 
 
+def _lm_edge_runs(tier):
+    # bases 2^(1/K) whose largest table entry sits below, on and above a change of the entry width (256; 65536 in the thorough tier),
+    # also through a shift; and objects without a table (conversions and reported parameters only)
+    r = []
+    ks = [('255.2', 0), ('256.2', 0), ('257.2', 0), ('2041', 3), ('2049', 3), ('2057', 3)]
+    if tier == 'thorough':
+        ks += [('65535.2', 0), ('65536.2', 0), ('65537.2', 0)]
+    for k, sh in ks:
+        r.append(dict(h='mc_logmath', label='logmath-pow2-%s-s%d' % (k, sh), args=['--base', 'pow2:' + k, '--shift', str(sh)]))
+    for b, sh in (('1.0001', 0), ('1.0001', 8), ('1.003', 4)) + ((('1.0001', 10), ('1.1', 1)) if tier == 'thorough' else ()):
+        r.append(dict(h='mc_logmath', label='logmath-notable-b%s-s%d' % (b, sh), args=['--base', b, '--shift', str(sh), '--table', '0']))
+    return r
+
+
 def _ep_runs(maxwin, nlong):
     r = [dict(h='mc_endpointer', label='endpointer-grid-shard%d' % i,
               args=['--grid', '1', '--maxwin', str(maxwin), '--shard', '%d/14' % i]) for i in range(14)]
@@ -730,9 +744,9 @@ CHECKS = {
     'C19': dict(
         title='log-add accurate, symmetric, monotone; log/exp round trip never increases',
         level='exploration',
-        runs={'quick': _lm_runs(['1.0001', '1.0003', '1.001', '1.003', '1.01', '1.1'], [0, 1, 2, 4]),
+        runs={'quick': _lm_runs(['1.0001', '1.0003', '1.001', '1.003', '1.01', '1.1'], [0, 1, 2, 4]) + _lm_edge_runs('quick'),
               'thorough': _lm_runs(['1.0001', '1.0003', '1.001', '1.003', '1.01', '1.1', '1.00001', '1.00005', '1.5', '2.0'],
-                                   [0, 1, 2, 3, 4, 8])},
+                                   [0, 1, 2, 3, 4, 8]) + _lm_edge_runs('thorough')},
         budget_s={'quick': 120, 'thorough': 1200},
         coverage=ex_cov,
         rule='complete enumeration per (base, shift): every difference d in [0, table_size+512] x anchors r in '
@@ -741,7 +755,8 @@ CHECKS = {
              'contributed a non-zero increment, or the converted probability is not an exact power of the base; each (d, r) and '
              '(v, fraction) pair is distinct by construction',
         assumptions=['long double libm (expl/log1pl/logl) as the arithmetic oracle, tolerance 1e-4 unit for the table\'s accumulated division error',
-                     'bases and shifts outside the listed grid are not explored'] + TRUST,
+                     'bases and shifts outside the listed grid are not explored; objects created without a table are judged on their '
+                     'conversions and reported parameters only (the property speaks of the table-driven addition)'] + TRUST,
     ),
     'C20': dict(
         title='hash table is a map under any operation history',
